@@ -971,4 +971,98 @@ theorem fromFunction_congr (shape : List Nat) (q : Rat) (draw draw' : Nat → Li
   simp only [Sparse.fromFunction, Sparse.fromFunctionG, this]
 
 
+
+/-- `ktensor.from_function`: unit weights, the produced matrices as factors in mode order. -/
+theorem ktensor_fromFunction_spec [One α] (shape : List Nat) (R : Nat) (outs : List (Mat α))
+    (hs : shape ≠ []) (hl : outs.length = shape.length)
+    (hc : ∀ A ∈ outs, ∀ row ∈ A, row.length = R) :
+    ∃ K, Ktensor.fromFunction shape R outs = .ok K ∧ K.weights = List.replicate R 1 ∧
+      K.factors = outs ∧ K.WF ∧ K.ncomp = R ∧ (outs.map List.length = shape → K.shape = shape) := by
+  refine ⟨⟨List.replicate R 1, outs⟩, ?_, rfl, rfl, ?_, by simp [Ktensor.ncomp], fun h => h⟩
+  · have h1 : shape.isEmpty = false := by cases shape <;> simp_all
+    have h2 : (outs.length != shape.length) = false := by simp [hl]
+    have h3 : outs.all (fun A => A.all (fun row => row.length == R)) = true := by
+      simp only [List.all_eq_true, beq_iff_eq]
+      exact hc
+    simp [Ktensor.fromFunction, h1, h2, h3]
+  · intro A hA row hrow
+    simpa using hc A hA row hrow
+
+theorem ktensor_fromFunction_rejects [One α] (shape : List Nat) (R : Nat) (outs : List (Mat α)) :
+    (shape = [] → Ktensor.fromFunction shape R outs = .error .reject) ∧
+    ((∃ A ∈ outs, ∃ row ∈ A, row.length ≠ R) → Ktensor.fromFunction shape R outs = .error .reject) := by
+  constructor
+  · rintro rfl; rfl
+  · rintro ⟨A, hA, row, hrow, hne⟩
+    have h3 : outs.all (fun A => A.all (fun row => row.length == R)) = false := by
+      rw [List.all_eq_false]
+      refine ⟨A, hA, ?_⟩
+      rw [Bool.not_eq_true, List.all_eq_false]
+      exact ⟨row, hrow, by simpa using hne⟩
+    unfold Ktensor.fromFunction
+    split
+    · rfl
+    · simp [h3]
+
+
+
+theorem nonzerosRequest_ok (shape : List Nat) (q : Rat) (h0 : 0 ≤ q) (h1 : q ≤ ((numel shape : Nat) : Rat)) :
+    ∃ nz, nonzerosRequest true shape q = .ok nz := by
+  unfold nonzerosRequest
+  have a : ¬ (q < 0) := not_lt.2 h0
+  have b : ¬ (q > ((numel shape : Nat) : Rat)) := not_lt.2 h1
+  simp only [Bool.not_true, Bool.false_and, Bool.or_false, a, b, decide_false, Bool.or_self,
+    Bool.false_eq_true, if_false]
+  split
+  · exact ⟨_, rfl⟩
+  · exact ⟨_, rfl⟩
+
+/-- A density in `(0,1]` of a tensor with at least one cell is a request for
+`max(1, ⌊size · density⌋)` nonzeros. -/
+theorem densityRequest_count (shape : List Nat) (d : Rat) (h0 : 0 < d) (h1 : d ≤ 1) (hs : 0 < numel shape) :
+    nonzerosRequest true shape (densityRequest true shape d) =
+      .ok (max 1 (((numel shape : Nat) : Rat) * d).floor.toNat) := by
+  have hsz : (1 : Rat) ≤ ((numel shape : Nat) : Rat) := by exact_mod_cast hs
+  have hq0 : 0 ≤ ((numel shape : Nat) : Rat) * d := by
+    have : (0 : Rat) ≤ ((numel shape : Nat) : Rat) := by linarith
+    exact mul_nonneg this (le_of_lt h0)
+  have hq1 : ((numel shape : Nat) : Rat) * d ≤ ((numel shape : Nat) : Rat) := by
+    have : (0 : Rat) ≤ ((numel shape : Nat) : Rat) := by linarith
+    nlinarith
+  unfold densityRequest
+  by_cases hlt : ((numel shape : Nat) : Rat) * d < 1
+  · simp only [hlt, decide_true, Bool.and_self, if_true]
+    have hfl : (((numel shape : Nat) : Rat) * d).floor.toNat = 0 := by
+      have : (((numel shape : Nat) : Rat) * d).floor < 1 := by
+        rw [Rat.floor_lt_iff]; exact_mod_cast hlt
+      omega
+    rw [hfl]
+    have := nonzerosRequest_nat shape 1 hs
+    simpa using this
+  · simp only [hlt, decide_false, Bool.and_false, Bool.false_eq_true, if_false]
+    unfold nonzerosRequest
+    have a : ¬ (((numel shape : Nat) : Rat) * d < 0) := not_lt.2 hq0
+    have b : ¬ (((numel shape : Nat) : Rat) * d > ((numel shape : Nat) : Rat)) := not_lt.2 hq1
+    simp only [Bool.not_true, Bool.false_and, Bool.or_false, a, b, hlt, decide_false, Bool.or_self,
+      Bool.false_eq_true, if_false]
+    have hge : 1 ≤ (((numel shape : Nat) : Rat) * d).floor := by
+      rw [Rat.le_floor_iff]; exact_mod_cast not_lt.1 hlt
+    congr 1
+    omega
+
+theorem sptenrand_eq (shape : List Nat) (draw : Nat → List (List Rat)) (vd : Nat → List α) :
+    (∀ d : Rat, 0 < d → d ≤ 1 → Sparse.sptenrand shape (some d) none draw vd =
+      Sparse.fromFunction shape (densityRequest true shape d) draw vd) ∧
+    (∀ q : Rat, Sparse.sptenrand shape none (some q) draw vd = Sparse.fromFunction shape q draw vd) := by
+  constructor
+  · intro d h0 h1
+    simp [Sparse.sptenrand, Sparse.sptenrandG, Sparse.fromFunction, h0, h1]
+  · intro q; rfl
+
+/-- Distinct rows among a draw are counted by `np.unique`. -/
+theorem le_unique_length (rows R : List (List Nat)) (hR : R.Nodup) (hsub : ∀ r ∈ R, r ∈ rows) :
+    R.length ≤ (uniqueRowsSorted rows).length :=
+  (List.subperm_of_subset hR (fun r hr => (mem_uniqueRowsSorted rows r).2 (hsub r hr))).length_le
+
+
 end Pyttb
